@@ -111,6 +111,113 @@ func vpC16Single(tname string) {
 	vpReach("end")
 }
 
+// vpSetItemField puts v at the named single-item position of x (one of the four holder types)
+func vpSetItemField(x Item, pos string, v Item) {
+	common := func(o *Object) {
+		switch pos {
+		case "AttributedTo":
+			o.AttributedTo = v
+		case "Replies":
+			o.Replies = v
+		case "Likes":
+			o.Likes = v
+		case "Shares":
+			o.Shares = v
+		}
+	}
+	switch a := x.(type) {
+	case *Object:
+		common(a)
+	case *Actor:
+		switch pos {
+		case "AttributedTo":
+			a.AttributedTo = v
+		case "Replies":
+			a.Replies = v
+		case "Likes":
+			a.Likes = v
+		case "Shares":
+			a.Shares = v
+		}
+	case *Activity:
+		switch pos {
+		case "Actor":
+			a.Actor = v
+		case "Object":
+			a.Object = v
+		case "Target":
+			a.Target = v
+		case "Result":
+			a.Result = v
+		case "Origin":
+			a.Origin = v
+		case "Instrument":
+			a.Instrument = v
+		case "AttributedTo":
+			a.AttributedTo = v
+		case "Replies":
+			a.Replies = v
+		case "Likes":
+			a.Likes = v
+		case "Shares":
+			a.Shares = v
+		}
+	case *Question:
+		switch pos {
+		case "Actor":
+			a.Actor = v
+		case "Target":
+			a.Target = v
+		case "Result":
+			a.Result = v
+		case "Origin":
+			a.Origin = v
+		case "Instrument":
+			a.Instrument = v
+		case "AttributedTo":
+			a.AttributedTo = v
+		case "Replies":
+			a.Replies = v
+		case "Likes":
+			a.Likes = v
+		case "Shares":
+			a.Shares = v
+		}
+	}
+}
+
+// an embedded value of every non-collection type that has an id, pointer and value forms, at every
+// single-item position: it becomes its id
+func vpH_C16_embedded_types() {
+	tname := []string{"Object", "Activity", "Question", "Actor"}[vpChoice(4)]
+	ti := vpTypeIndex(tname)
+	positions := vpC16Positions(tname)
+	pos := positions[vpChoice(len(positions))]
+	embNames := []string{"Object", "Actor", "Activity", "IntransitiveActivity", "Question", "Place", "Profile", "Relationship", "Tombstone"}
+	en := embNames[vpChoice(len(embNames))]
+	emb := vpNew(vpTypeIndex(en))
+	vpSetID(emb, "https://h.ex/emb")
+	_ = OnObject(emb, func(o *Object) error {
+		o.Name = NaturalLanguageValues{{Ref: NilLangRef, Value: Content("n")}}
+		if en == "IntransitiveActivity" {
+			o.Type = []ActivityVocabularyType{TravelType, ArriveType, ""}[vpChoice(3)]
+		}
+		return nil
+	})
+	if vpBool() {
+		emb = vpValueOf(emb)
+	}
+	x := vpNew(ti)
+	vpSetField(x, 0, 0, 'i')
+	vpSetItemField(x, pos, emb)
+	cell := tname + "." + pos + "/" + en
+	res := FlattenProperties(x)
+	vpAssert("embedded-types/returns-same-value/"+cell, res == x)
+	got := vpGetItemField(x, pos)
+	vpAssert("embedded-types/becomes-its-id/"+cell, got != nil && IsIRI(got) && got.GetLink() == "https://h.ex/emb")
+	vpReach("end")
+}
+
 func vpH_C16_single_Activity()             { vpC16Single("Activity") }
 func vpH_C16_single_IntransitiveActivity() { vpC16Single("IntransitiveActivity") }
 func vpH_C16_single_Question()             { vpC16Single("Question") }
